@@ -13,6 +13,10 @@ def run(ctx):
             ("par", 200 if quick else 4000, 40, 41, []),
             ("chain", 100 if quick else 2000, 60, 42, [])]
     r = codec.run_art("C06", ctx, runs)
-    violations, known = codec.verdict("C06", r)
+    def search():
+        # other seeds, three times as many cases
+        ctx2 = dict(ctx); ctx2["seed"] = ctx["seed"] + 7919
+        return codec.run_art("C06", ctx2, [(m, c * 3, n, so, ex) + tuple(rest) for (m, c, n, so, ex, *rest) in runs if m not in ("data",)])
+    violations, known = codec.verdict("C06", r, search=search)
     r.update({"violations": violations, "known": known})
     return r
